@@ -1,9 +1,96 @@
-import Lean.Data.Json
-/-! Driver handlers for property C07: `handle op request` answers one JSON request. -/
+import PydjinniModel.Drv.GenJson
+import PydjinniModel.Gen.JniSpec
+/-! Driver handlers for property C07: model of the JNI lookups / exports / Java members per declaration,
+    descriptors of Java source types, and the specification on observations. -/
 namespace Pydjinni.Drv.C07
-open Lean
+open Lean Pydjinni.Gen Pydjinni.Drv.GenJson
 
-def handle (op : String) (_req : Json) : Except String Json :=
-  throw s!"unknown op {op}"
+def lookupJ (l : Lookup) : Json := Json.mkObj [("cls", l.cls), ("kind", l.kind), ("name", l.name), ("sig", l.sig)]
+def exportJ (e : Export) : Json := Json.mkObj [("symbol", e.symbol), ("ret", e.ret), ("recv", e.recv), ("params", strsJ e.params)]
+def memberJ' (m : JMember) : Json :=
+  Json.mkObj [("cls", m.cls), ("kind", m.kind), ("name", m.name), ("static", m.isStatic), ("native", m.isNative), ("desc", m.desc)]
+
+/-- support classes generated once per program: `NativeRunnable` (async on a C++ interface) and
+    `NativeCompletion` (async on a Java interface) -/
+def supportModel (c : Cfg) (runnable completion : Bool) : Json :=
+  let jniCls (n : String) : String := joinS "/" (c.java.package ++ c.java.supportPackage ++ [n])
+  let javaCls (n : String) : String := joinS "/" (c.java.package ++ c.java.supportPackage ++ [n])
+  let spkg : List String := c.java.package ++ c.java.supportPackage
+  let pfx (n : String) : String := jniPrefix (spkg ++ [n])
+  let lookups := (if runnable then proxyLookups (jniCls "NativeRunnable") else []) ++ (if completion then proxyLookups (jniCls "NativeCompletion") else [])
+  let exports : List Export :=
+    (if runnable then
+      [{ symbol := pfx "NativeRunnable" ++ "_nativeRun", ret := "void", recv := "jobject", params := ["jlong"] },
+       { symbol := pfx "NativeRunnable" ++ "_00024CleanupTask_nativeDestroy", ret := "void", recv := "jobject", params := ["jlong"] }] else []) ++
+    (if completion then
+      [{ symbol := pfx "NativeCompletion" ++ "_nativeSuccess", ret := "void", recv := "jobject", params := ["jlong", "jobject"] },
+       { symbol := pfx "NativeCompletion" ++ "_nativeException", ret := "void", recv := "jobject", params := ["jlong", "jthrowable"] },
+       { symbol := pfx "NativeCompletion" ++ "_00024CleanupTask_nativeDestroy", ret := "void", recv := "jobject", params := ["jlong"] }] else [])
+  let obj : JType := .cls ["java", "lang"] "Object" []
+  let thr : JType := .cls ["java", "lang"] "Throwable" []
+  let members : List JMember :=
+    (if runnable then
+      proxyMembers spkg "NativeRunnable" ++
+      [{ pkg := spkg, cname := "NativeRunnable", kind := "method", name := "nativeRun", isStatic := false, isNative := true, params := [jlong], ret := none }] else []) ++
+    (if completion then
+      proxyMembers spkg "NativeCompletion" ++
+      [{ pkg := spkg, cname := "NativeCompletion", kind := "method", name := "nativeSuccess", isStatic := false, isNative := true, params := [jlong, obj], ret := none },
+       { pkg := spkg, cname := "NativeCompletion", kind := "method", name := "nativeException", isStatic := false, isNative := true, params := [jlong, thr], ret := none }] else [])
+  Json.mkObj [("lookups", Json.arr (lookups.map lookupJ).toArray), ("exports", Json.arr (exports.map exportJ).toArray),
+              ("members", Json.arr (members.map memberJ').toArray),
+              ("dom", strsJ [])]
+
+def modelOp (req : Json) : Except String Json := do
+  let cm ← decodeCommon req
+  let ds ← getArr req "decls"
+  let decls ← ds.mapM (decodeDecl cm.env)
+  let out := decls.map (fun d =>
+    Json.mkObj [("lookups", Json.arr ((jniLookups cm.cfg.java cm.cfg.jni d).map lookupJ).toArray),
+                ("exports", Json.arr ((jniExports cm.cfg.java cm.cfg.jni d).map exportJ).toArray),
+                ("members", Json.arr ((javaMembers cm.cfg.java d).map memberJ').toArray),
+                ("java_class", javaClassName cm.cfg.java d), ("jni_class", jniClassDescriptor cm.cfg.java cm.cfg.jni (declTDef d)),
+                ("dom", strsJ (domViolations cm.cfg.java cm.cfg.jni d))])
+  let asyncOn (target : String) : Bool := decls.any (fun d => match d with
+    | .interface u ms => u.targets.contains target && ms.any (·.isAsync)
+    | _ => false)
+  pure (Json.mkObj [("out", Json.arr out.toArray), ("support", supportModel cm.cfg (asyncOn "cpp") (asyncOn "java"))])
+
+def descOp (req : Json) : Except String Json := do
+  let ts ← getArr req "types"
+  let out ← ts.mapM (fun j => match j with
+    | .null => pure (Json.mkObj [("desc", "V"), ("ctype", "void")])
+    | j => do
+      let t ← decodeJType j
+      pure (Json.mkObj [("desc", desc t), ("ctype", jniCType t), ("print", printJ t)]))
+  pure (Json.mkObj [("out", Json.arr out.toArray)])
+
+def decodeObs (req : Json) : Except String Obs := do
+  let cs ← getArr req "classes"
+  let classes ← cs.mapM (fun c => do
+    let ms ← getArr c "members"
+    let members ← ms.mapM (fun m => do
+      pure { kind := ← getStr m "kind", name := ← getStr m "name", desc := ← getStr m "desc",
+             isStatic := ← getBool m "static", isNative := ← getBool m "native" : MemberObs })
+    pure { name := ← getStr c "name", super := ← getOptStr c "extends", members := members : ClassObs })
+  let ls ← getArr req "lookups"
+  let lookups ← ls.mapM (fun l => do
+    pure { cls := ← getStr l "cls", kind := ← getStr l "kind", name := ← getStr l "name", sig := ← getStr l "sig" : Lookup })
+  let es ← getArr req "exports"
+  let exports ← es.mapM (fun e => do
+    pure { symbol := ← getStr e "symbol", ret := ← getStr e "ret", params := ← getStrs e "params" : ExportObs })
+  pure { classes := classes, lookups := lookups, exports := exports }
+
+def specOp (req : Json) : Except String Json := do
+  let o ← decodeObs req
+  let f := specFailures o
+  pure (Json.mkObj [("holds", f.isEmpty),
+    ("failed", Json.arr (f.map (fun (k, w) => Json.mkObj [("clause", k), ("what", w)])).toArray)])
+
+def handle (op : String) (req : Json) : Except String Json :=
+  match op with
+  | "c07.model" => modelOp req
+  | "c07.desc" => descOp req
+  | "c07.spec" => specOp req
+  | _ => throw s!"unknown op {op}"
 
 end Pydjinni.Drv.C07
